@@ -17,6 +17,8 @@ import OFV.Proofs.C09Addr
 import OFV.Proofs.C09Ext4
 import OFV.Proofs.C09Seq
 import OFV.Proofs.C09Bct4
+import OFV.Proofs.C09Enc
+import OFV.Proofs.C09Sum
 
 namespace OFV.C09
 open OFV.Model.C09 OFV.Spec.C09
@@ -360,6 +362,72 @@ theorem bct_hypotheses_from_validity (c : Code) (v : List Nat) (wq s : Nat) (hsh
 theorem update_operator_sound (cq : List Nat) (m x : Nat) :
     Sem.den .qubit (updateOp cq) [m] [x] = if x = m ^^^ updMask cq then 1 else 0 :=
   (flipOp_update cq).2 m x
+
+/-- **the encoding identity**: `wq ⊕ M` — the qubit state the update operator produces from the encoding
+`wq` of the occupation vector `v` — is the encoding of the image `s'` of the Spec action `t|s⟩ = ±|s'⟩`
+(linearity of `A · v mod 2`; no hypothesis on the encoder) -/
+theorem encoding_identity (c : Code) (v : List Nat) (wq s : Nat) (t : Model.Term) (k s' : Nat)
+    (hv : v.length = c.nm) (hv01 : ∀ x ∈ v, x ≤ 1) (ht : ∀ f ∈ t, f.1 < c.nm)
+    (hw : bitsOf wq = encFn c v) (hs : ∀ j, s.testBit j = (v.getD j 0 == 1))
+    (hact : Spec.actFTerm t s = some (k, s')) :
+    bitsOf (wq ^^^ updMask (encode c ((t.reverse.map (·.1)).foldl addAt (zeros c.nm)))) =
+      encFn c (occList s' c.nm) :=
+  encoding_identity_occ c v wq s t k s' hv hv01 ht hw hs hact
+
+/-- **binary_code_transform_sound, one term, between encoded states**: for a code that decodes what it
+encodes at the occupation vector `v` (Fock state `s`, qubit state `wq = e(v)`), one transformed term
+`R` of the Hamiltonian has `⟨x| R |e(v)⟩ = 0` for every `x` when the Spec action `t|s⟩` vanishes, and
+when `t|s⟩ = (-1)^k |s'⟩` there is one qubit state `x'`, the encoding of `s'`, with
+`⟨x| R |e(v)⟩ = coef · (-1)^k · δ_{x x'}`. -/
+theorem binary_code_transform_term_encoded (c : Code) (v : List Nat) (wq s : Nat)
+    (hsh : c.dec.length = c.nm) (hpoly : ∀ e ∈ c.dec, ∃ p, e = .poly p) (hne : ∀ e ∈ c.dec, ∀ t ∈ e.toPoly, t ≠ [])
+    (hv : v.length = c.nm) (hv01 : ∀ x ∈ v, x ≤ 1) (hval : ValidOn c v)
+    (hw : bitsOf wq = encFn c v) (hs : ∀ j, s.testBit j = (v.getD j 0 == 1))
+    (t : Model.Term) (ht : ∀ f ∈ t, f.2 ≤ 1) (htm : ∀ f ∈ t, f.1 < c.nm) (coef : GQ) (R : Model.Op)
+    (h : bctTerm 0 c (makeParityList c) t coef = .ok R) :
+    match Spec.actFTerm t s with
+    | none => ∀ x, Sem.den .qubit R [wq] [x] = 0
+    | some (k, s') => ∃ x', bitsOf x' = encFn c (occList s' c.nm) ∧
+        ∀ x, Sem.den .qubit R [wq] [x] = if x = x' then coef * GQ.sgn k else 0 := by
+  have hyp := bctHyp_of_valid c v wq s hsh hpoly hne hval hw hs
+  have hterm := bct_term_sound' c (makeParityList c) wq s hyp t ht coef R h
+  cases hact : Spec.actFTerm t s with
+  | none =>
+    intro x
+    have := hterm x
+    rw [hact] at this
+    exact this
+  | some ks =>
+    obtain ⟨k, s'⟩ := ks
+    refine ⟨wq ^^^ updMask (encode c ((t.reverse.map (·.1)).foldl addAt (zeros c.nm))),
+      encoding_identity_occ c v wq s t k s' hv hv01 htm hw hs hact, ?_⟩
+    intro x
+    have := hterm x
+    rw [hact] at this
+    exact this
+
+/-- the loop over the terms and the final `compress()` add up the terms (tolerance-free Model): when every
+transformed term has the matrix element `F term`, the result has the sum -/
+theorem binary_code_transform_sum (c : Code) (h R : Model.Op) (F : Model.Term × GQ → GQ) (s x : List Nat)
+    (hF : ∀ tc ∈ h, ∀ img, bctTerm 0 c (makeParityList c) tc.1 tc.2 = .ok img → Sem.den .qubit img s x = F tc)
+    (hR : binaryCodeTransform 0 h c = .ok R) : Sem.den .qubit R s x = (h.map F).sum :=
+  bct_den_sum c h R F s x hF hR
+
+/-- **binary_code_transform_sound** (tolerance-free Model): let the code decode what it encodes on a set
+`dom` of occupation vectors (`d(e(v)) = v`), and let every term of the Hamiltonian `h` map Fock states
+of `dom` to Fock states of `dom` or to 0.  Then for `v, u ∈ dom` the transformed operator `R` has
+`⟨e(u)| R |e(v)⟩ = ⟨u| h |v⟩`, the Spec matrix element of the fermion operator. -/
+theorem binary_code_transform_sound (c : Code) (h R : Model.Op) (dom : List Nat → Prop)
+    (hsh : c.dec.length = c.nm) (hpoly : ∀ e ∈ c.dec, ∃ p, e = .poly p) (hne : ∀ e ∈ c.dec, ∀ t ∈ e.toPoly, t ≠ [])
+    (hdom : ∀ v, dom v → v.length = c.nm ∧ (∀ x ∈ v, x ≤ 1) ∧ ValidOn c v)
+    (hwf : ∀ tc ∈ h, ∀ f ∈ tc.1, f.2 ≤ 1 ∧ f.1 < c.nm)
+    (v u : List Nat) (hv : dom v) (hu : dom u) (wq xq s out : Nat)
+    (hw : bitsOf wq = encFn c v) (hx : bitsOf xq = encFn c u)
+    (hs : ∀ j, s.testBit j = (v.getD j 0 == 1)) (ho : ∀ j, out.testBit j = (u.getD j 0 == 1))
+    (hpres : ∀ tc ∈ h, ∀ k s', Spec.actFTerm tc.1 s = some (k, s') → dom (occList s' c.nm))
+    (hR : binaryCodeTransform 0 h c = .ok R) :
+    Sem.den .qubit R [wq] [xq] = Spec.melF h out s :=
+  bct_sound_encoded c h R dom hsh hpoly hne hdom hwf v u hv hu wq xq s out hw hx hs ho hpres hR
 
 /-! ## the literal segment codes (tables re-extracted from the source on every run) -/
 
